@@ -364,17 +364,18 @@ def _keyed_cache(ctx, R, ix, f, keyvar, compute_call, exceptions):
     if len(keydefs) != 1 or not isinstance(keydefs[0].value, ast.Tuple):
         raise AnalysisError('%s: cache key %s is not a single tuple literal' % (f.construct, keyvar))
     kd = keydefs[0]
+    from ..util import expand_locals
 
     def vs_attrs(node):
         out = set()
-        for n in ast.walk(node):
+        for n in ast.walk(expand_locals(f.node, node)):
             if isinstance(n, ast.Attribute) and isinstance(n.value, ast.Attribute) \
                     and n.value.attr in ('viewer_state', '_viewer_state') and isinstance(n.ctx, ast.Load):
                 out.add(n.attr)
         return out
     key = vs_attrs(kd.value)
     # the comparison with the stored key guards an early return
-    cmp_ok = any(isinstance(n, ast.Compare) and keyvar in unparse(n) and '_cache' in unparse(n)
+    cmp_ok = any(isinstance(n, ast.Compare) and keyvar in unparse(n) and '_cache' in unparse(expand_locals(f.node, n))
                  for n in walk_no_nested(f.node))
     ctx.ob(R, f.construct, 'the cached value is returned only when the stored key equals the current one', cmp_ok,
            detail='%s no longer compares the stored key with %s before returning the cached value' % (f.construct, keyvar),
